@@ -128,6 +128,11 @@ def build(kind, lc, ac, use_field, vc, oc, nc, when, dup, lc2=0, ac2=0):
         deco(PLURAL, id='h', registry=registry, **kw)(fn)       # same function, same id: once
     elif dup == 2:
         deco(PLURAL, id='h2', registry=registry, **kw)(fn)      # same function, another id: twice
+    elif dup == 3:
+        async def other(**_):
+            pass
+        deco(PLURAL, id='g', registry=registry, **kw)(other)    # another handler registered in between ...
+        deco(PLURAL, id='h', registry=registry, **kw)(fn)       # ... the same function under the same id again: still once
     return registry
 
 
@@ -162,7 +167,7 @@ def h_match(lc: int, ac: int, use_field: bool, vc: int, oc: int, nc: int, when: 
             label: int, ann: int, old_f: int, new_f: int, other_changed: bool, label2: int, ann2: int) -> bool:
     """
     pre: 0 <= lc <= 5 and 0 <= ac <= 5 and 0 <= vc <= 5 and 0 <= oc <= 5 and 0 <= nc <= 5
-    pre: 0 <= when <= 2 and 0 <= dup <= 2
+    pre: 0 <= when <= 2 and 0 <= dup <= 3
     pre: 0 <= label <= 2 and 0 <= ann <= 2 and 0 <= old_f <= 3 and 0 <= new_f <= 3 and 0 <= label2 <= 2 and 0 <= ann2 <= 2
     post: _ == True
     """
@@ -201,7 +206,7 @@ def h_match(lc: int, ac: int, use_field: bool, vc: int, oc: int, nc: int, when: 
     want_one = spec_match(kind, lc, ac, use_field, vc, oc, nc, when, META_VALS[label], META_VALS[ann], VALS[old_f], VALS[new_f], other_changed)
     # "the resource must satisfy all of the criteria" -- every key of labels=/annotations=
     want_one = want_one and spec_value(lc2, META_VALS[label2]) and spec_value(ac2, META_VALS[ann2])
-    want = [] if not want_one else (['h', 'h2'] if dup == 2 else ['h'])
+    want = [] if not want_one else (['h', 'h2'] if dup == 2 else ['g', 'h'] if dup == 3 else ['h'])
     if want:
         vkopf.witness('matched')
     else:
@@ -235,6 +240,8 @@ def obligations():
     for q in quick:
         obs.append(cell(*q, tiers=('quick',)))
     # two criteria in one filter: the second one counts whatever the first one says (callback first, and the other way round)
+    obs.append(cell(1, 1, 0, True, 0, 0, 0, 0, 3, tiers=('quick', 'thorough')))
+    obs.append(cell(0, 0, 2, False, 0, 0, 0, 1, 3, tiers=('quick', 'thorough')))
     obs.append(cell(1, 4, 0, False, 0, 0, 0, 0, 0, tiers=('quick',), extra={'lc2': 1}))
     obs.append(cell(0, 1, 5, False, 0, 0, 0, 0, 0, tiers=('quick',), extra={'lc2': 5, 'ac2': 3}))
     for kind in (0, 1):
@@ -253,7 +260,7 @@ def obligations():
             for ac in (0, 2, 5):
                 obs.append(cell(kind, lc, ac, False, 0, 0, 0, 0, 0, tiers=('thorough',)))
         for when in (1, 2):
-            for dup in (0, 1, 2):
+            for dup in (0, 1, 2, 3):
                 obs.append(cell(kind, 1, 0, True, 1, 0, 0, when, dup, tiers=('thorough',)))
     obs.append(Ob('h_match', {'kind': 0, 'exclude_known': False, 'only_f9': True}, expect='counterexample', finding='F9', timeout=300))
     obs += split(Ob('h_field_pipeline', {'progress': 'annotations', 'diffbase': 'annotations', 'v1': True}, timeout=900, twins=['field_view']),
